@@ -415,8 +415,8 @@ where
 
     /// Remove a relation from the map
     pub fn remove_all(&mut self, x: A) {
-        if x.as_usize() >= self.data.len() {
-            self.data.remove(x.as_usize());
+        if let Some(inner) = self.data.get_mut(x.as_usize()) {
+            inner.data.clear();
         }
     }
 
